@@ -420,6 +420,7 @@ SPEC = PropSpec(
 )
 
 MUTANTS = [
+    {"id": "right-band-lookup-before-dimension-test", "file": SAD, "old": '            # Right image can have 3 dim if its from dataset or 2 if its from shift_right_image function\n            if len(img_right["im"].data.shape) > 2:\n                band_index_right = list(img_right.band_im.data).index(self._band)\n                cost = abs(', "new": '            band_index_right = list(img_right.band_im.data).index(self._band)\n            # Right image can have 3 dim if its from dataset or 2 if its from shift_right_image function\n            if len(img_right["im"].data.shape) > 2:\n                cost = abs('},
     {"id": "ceil-floor-swapped-one-branch", "file": MC, "old": "            point_p = (int(ceil(point_p[0])), int(ceil(point_p[1])))\n", "new": "            point_p = (int(floor(point_p[0])), int(floor(point_p[1])))\n"},
     {"id": "delete-border-renan-slice", "file": SAD, "old": "            cv[:, -offset_row_col:, :] = np.nan\n", "new": ""},
     {"id": "zero-var-lt", "file": ZN, "old": "zncc[np.where(divide_standard <= 0)] = 0", "new": "zncc[np.where(divide_standard < 0)] = 0"},
